@@ -365,7 +365,8 @@ def main(argv=None):
         # ---- phase B/C: enumeration, custom engines and generation, sharded over processes
         jobs = []
         n = a.budget if a.budget is not None else mod.budget(a.tier)
-        nsh = max(1, min(NPROC, n // 20 if n >= 20 else 1)) if n > 0 else 0
+        mps = int(getattr(mod, 'MIN_PER_SHARD', 20))
+        nsh = max(1, min(NPROC, n // mps if n >= mps else 1)) if n > 0 else 0
         per = (n + nsh - 1) // nsh if nsh else 0
         ctx = mp.get_context("fork")
         results = []
